@@ -10,8 +10,20 @@ COMMON_ASSUMPTIONS = [
 
 PROPS = {}
 
+NOT_APPLICABLE = {
+    "C08": "cue fmt: decided by the printer's whitespace/comment state machine over a pointer-rich AST plus text/tabwriter; inputs short enough to execute symbolically contain no layout decisions (DESIGN section 5)",
+    "C11": "YAML round trip is decided by go.yaml.in/yaml/v3's emitter/scanner/resolver (table-driven state machines, strconv.ParseFloat, time.Parse); nothing that decides the property is encodable (DESIGN section 5)",
+    "C12": "process-level composition of flag parsing, CUE-evaluated file-type inference and third-party YAML/TOML encoders; the literal/label kernels it relies on are claimed under C09/C10 (DESIGN section 5)",
+    "C13": "instance validity is decided by the evaluator on generated CUE (closed structs, matchN, regexps); the translator only builds AST; no encodable unit carries an oracle (DESIGN section 5)",
+    "C17": "tidy is the package loader iterating over a registry with concurrent loads; modfile.Parse/Format run the evaluator over schema.cue; the version ordering it relies on is claimed under C14 (DESIGN section 5)",
+    "C19": "requires exploring goroutine interleavings over the evaluator's shared heap under a memory model; the executor has no concurrent semantics beyond a cooperative model (DESIGN section 5)",
+    "C20": "decided by subsumption with defaults over evaluated vertices (tools/trim on top of subsume and the evaluator): whole-evaluator reach (DESIGN section 5)",
+}
+
 PROPS["C14"] = {
     "level": "model_checking",
+    "claim": "Bounded symbolic model checking of the real code: semver.Compare is a total preorder agreeing with an independent SemVer 2.0 reference and with Canonical; Versions.Max and the comparison mvs derives from it are consistent; the real mvs.BuildList (real Graph, real par.Work queue with a symbolic pick) returns exactly the least fixpoint (main module first, maximum of reachable versions per path, nothing unreachable) for every requirement relation and every processing order in the stated universe. Within the bounds the verdict covers every input, not a sample.",
+    "note": "Trusted: go/ssa, the executor, z3. Stubs: rand.IntN is an explored choice, Work.Do runs one runner. Outside: real goroutine races, Upgrade/Downgrade/Req, modrequirements pruning, inputs beyond the bounds.",
     "technique": "bounded symbolic execution of the real semver / module.Versions.Max / mvs.BuildList / par.Work code from go/ssa; z3 decides every branch and assertion; differential against an independent SemVer 2.0 reference and a least-fixpoint reference",
     "bounds": {
         "quick": "semver: all pairs of byte strings of length <= 5 (total preorder), pairs 'template + <=2 arbitrary bytes' over 7 templates (agreement with SemVer 2.0 reference, Canonical), triples with <=1 arbitrary byte after each template (transitivity); Max: all pairs of strings <= 6 bytes; BuildList: target + 2 paths x 2 versions with symbolic minor digits, every requirement relation with <=1 requirement per other path per node, every processing order of the real work queue",
@@ -50,6 +62,60 @@ PROPS["C14"] = {
             "pkg": "./internal/mod/mvs",
             "harness": ["mvs/buildlist.go"],
             "entries": {"quick": ["verifHarnessBuildList"], "thorough": ["verifHarnessBuildList"]},
+        },
+    ],
+}
+
+PROPS["C09"] = {
+    "level": "model_checking",
+    "claim": "Bounded symbolic model checking of the real cue/literal, cue/scanner and cue/ast code: every quoting form unquotes to the original for every content within the length bound; the scanner terminates, never panics and reports in-range, monotone positions and literal-equals-source on every source within the bound; scanner, literal.ParseNum, ast.IsValidIdent, LabelName/NewStringLabel and Go's strconv.Unquote agree on whole inputs. Three genuine disagreements are recorded as known findings; one quoting defect was repaired (fix: commit).",
+    "note": "Trusted: go/ssa, the executor, z3, the Unicode-class axioms. cue/parser itself (tree construction, node containment) is outside the claim, as are inputs longer than the bounds.",
+    "technique": "bounded symbolic execution of the real cue/literal, cue/scanner and cue/ast code from go/ssa over arbitrary byte strings; round-trip, totality and differential assertions decided by z3 (single-byte branch conditions by the exact byte-domain pre-solver)",
+    "bounds": {
+        "quick": "quote/unquote round trip: every string/byte sequence of length <= 2 in each of 32 forms ({String,Bytes} x {single line, tab indent 0, tab indent 1, optional indent} x {-,optional hashes} x {-,ASCII only}); scanner totality/positions: every source of <= 3 bytes (comments on); scanner vs ParseNum and vs IsValidIdent: every string of <= 4 bytes; labels: every valid UTF-8 string <= 3 bytes; CUE vs Go unquote: every quoted literal with <= 3 content bytes",
+        "thorough": "round trip <= 3 bytes x 32 forms; scanner <= 4 bytes in both modes; agreement <= 5 bytes; labels <= 4; unquoters <= 5",
+    },
+    "outside": ["cue/parser (AST construction, error recovery, comment attachment, node start/end containment)", "inputs longer than the bounds", "value of number literals (C06)", "Unicode classification beyond ASCII/Latin-1 is an uninterpreted function constrained only by category disjointness and the fixed points U+FEFF/U+FFFD/non-code-points"],
+    "assumptions": ["(*literal.NumInfo).decimal stubbed to succeed in the scanner/ParseNum agreement harness (multiplier values are checked under C06)"],
+    "runs": [
+        {
+            "pkg": "./cue/literal",
+            "harness": ["literal/roundtrip.go"],
+            "entries": {
+                "quick": [{"name": "verifHarnessQuoteRoundTrip", "params": {"N": 2}}],
+                "thorough": [{"name": "verifHarnessQuoteRoundTrip", "params": {"N": 3}}],
+            },
+        },
+        {
+            "pkg": "./cue/scanner",
+            "harness": ["scanner/total.go"],
+            "entries": {
+                "quick": [
+                    {"name": "verifHarnessScanTotal", "params": {"N": 3}},
+                    {"name": "verifHarnessScanNumAgree", "params": {"N": 4}},
+                    {"name": "verifHarnessScanIdentAgree", "params": {"N": 4}},
+                ],
+                "thorough": [
+                    {"name": "verifHarnessScanTotal", "params": {"N": 4}},
+                    {"name": "verifHarnessScanTotal", "params": {"N": 4, "MODE": 0}},
+                    {"name": "verifHarnessScanNumAgree", "params": {"N": 5}},
+                    {"name": "verifHarnessScanIdentAgree", "params": {"N": 5}},
+                ],
+            },
+        },
+        {
+            "pkg": "./cue/ast",
+            "harness": ["ast/label.go"],
+            "entries": {
+                "quick": [
+                    {"name": "verifHarnessLabelRoundTrip", "params": {"N": 3}},
+                    {"name": "verifHarnessUnquotersAgree", "params": {"N": 3}},
+                ],
+                "thorough": [
+                    {"name": "verifHarnessLabelRoundTrip", "params": {"N": 4}},
+                    {"name": "verifHarnessUnquotersAgree", "params": {"N": 5}},
+                ],
+            },
         },
     ],
 }
